@@ -145,6 +145,22 @@ CLAIMED = {
         technique="TLA+ refinement (FsgModelImpl => FsgAbs) checked by TLC; state-graph edge tours replayed on the real API; TLC "
                   "trace validation with named predicates",
         design="4/C13"),
+    "C15": dict(
+        text="TLC proves exhaustively that the property's sentences (exact excerpts, order, no gaps or overlap, start/end rules, "
+             "times, end of stream) hold for the FIFO specification EndpointerAbs, and that the index-level transcription of "
+             "ps_endpointer.c (ring arrays, push/pop/speech count/linearize/end_stream) refines it and never leaves the ring, "
+             "for windows 3-6, every admissible threshold pair, streams <= 18 frames and end_stream at every point with 0/1/"
+             "full trailing frame. The real library is driven with scripted decisions (linker wrap of vad_classify) on ALL "
+             "decision sequences <= 10 (quick) / 13 (thorough) x end points on 8 real small-window configurations, on edge "
+             "tours of the Layer-A graph of the default and a 44.1 kHz configuration, on seeded long sequences, and with the "
+             "real WebRTC classifier on bundled audio; every call is validated by TLC against EndpointerAbs (frame identity by "
+             "memcmp, in_speech, speech_start/speech_end, out_nsamp).",
+        note="Trusted: TLC, the recorder harness/endpointer/ep_drv.c (public API only), ASan. Thresholds are the initialiser's "
+             "integers; times compared within 1e-9 s; reuse after end_stream out of scope. One genuine defect found and "
+             "repaired (fix: ep_speech_count overrun).",
+        technique="TLA+ refinement (EndpointerImpl => EndpointerAbs) and history predicates checked by TLC; exhaustive decision "
+                  "sequences and state-graph edge tours replayed on the real library via linker wrap; TLC trace validation",
+        design="4/C15"),
 }
 
 PENDING = "not built yet in this round (planned, see DESIGN.md section 4); no check is registered, so nothing is claimed"
